@@ -660,7 +660,8 @@ HLIstaccess(accrec_t *access_rec, int16 acc_mode)
         HGOTO_ERROR(DFE_CANTACCESS, FAIL);
     if (Hseek(dd_aid, 2, DF_START) == FAIL)
         HGOTO_ERROR(DFE_SEEKERROR, FAIL);
-    if (Hread(dd_aid, 14, local_ptbuf) == FAIL)
+    /* a header that is not completely there (e.g. its write failed half way) is not decoded */
+    if (Hread(dd_aid, 14, local_ptbuf) != 14)
         HGOTO_ERROR(DFE_READERROR, FAIL);
     if (Hendaccess(dd_aid) == FAIL)
         HGOTO_ERROR(DFE_CANTENDACCESS, FAIL);
@@ -679,6 +680,10 @@ HLIstaccess(accrec_t *access_rec, int16 acc_mode)
         INT32DECODE(p, info->number_blocks);
         UINT16DECODE(p, info->link_ref);
     }
+
+    /* the block tables are sized and indexed with these */
+    if (info->length < 0 || info->block_length <= 0 || info->number_blocks <= 0)
+        HGOTO_ERROR(DFE_RANGE, FAIL);
 
     /* get the block length and number of blocks */
     access_rec->block_size = info->block_length;
@@ -977,7 +982,7 @@ HLIgetlink(int32 file_id, uint16 ref, int32 number_blocks)
 
     /* read block table into buffer */
     access_id = Hstartread(file_id, tag, ref);
-    if (access_id == FAIL || Hread(access_id, 2 + 2 * number_blocks, buffer) == FAIL)
+    if (access_id == FAIL || Hread(access_id, 2 + 2 * number_blocks, buffer) != 2 + 2 * number_blocks)
         HGOTO_ERROR(DFE_READERROR, NULL);
 
     /* decode block table information read from file */
